@@ -218,26 +218,7 @@ Theorem C13_fuel_enough : forall n0 c buf evs, cfg_ok c = true ->
     forallb (fun t => fuel_ok (match t with (_, _, o, _) => o end)) (run_steps fuel (init c n0 buf) evs) = true.
 Proof. exact fuel_enough. Qed.
 Print Assumptions C13_fuel_enough.
-(* hence the run-level theorems hold without the fuel hypothesis, for all sufficiently large fuel *)
-Theorem C13_reachable_invariant_all : forall n0 c buf evs, cfg_ok c = true ->
-  exists fuel0, forall fuel, (fuel0 <= fuel)%nat ->
-    Forall (fun t => Reach n0 (t_pre t) /\ Reach n0 (t_post t)) (run_steps fuel (init c n0 buf) evs).
-Proof. exact reachable_all. Qed.
-Print Assumptions C13_reachable_invariant_all.
-Theorem C13_every_stop_quiescent_all : forall n0 c buf evs, cfg_ok c = true ->
-  exists fuel0, forall fuel, (fuel0 <= fuel)%nat -> Forall (stop_ok n0) (run_steps fuel (init c n0 buf) evs).
-Proof. exact every_stop_quiescent_all. Qed.
-Print Assumptions C13_every_stop_quiescent_all.
-Theorem C13_shutdown_commits_all : forall n0 c buf evs, cfg_ok c = true ->
-  exists fuel0, forall fuel, (fuel0 <= fuel)%nat ->
-    forallb (fun t => forallb (shutd_ok (c_group c)) (t_out t)) (run_steps fuel (init c n0 buf) evs) = true.
-Proof. exact shutdown_commits_all. Qed.
-Print Assumptions C13_shutdown_commits_all.
-Theorem C13_not_started_idle_all : forall n0 c buf evs, cfg_ok c = true ->
-  exists fuel0, forall fuel, (fuel0 <= fuel)%nat ->
-    forallb (fun t => not_started_idle (t_post t)) (run_steps fuel (init c n0 buf) evs) = true.
-Proof. exact not_started_idle_all. Qed.
-Print Assumptions C13_not_started_idle_all.
+(* the run-level theorems restated without the fuel hypothesis (for all sufficiently large fuel) are in Props/C13all.v *)
 
 (* ---------------- non-vacuity: stop() with a commit in flight, a reply parked behind a pending processor ----------- *)
 Definition ex_cfg := mkCfg true 1 true 0 None 7.
